@@ -43,8 +43,9 @@ ANCHORS = [
     ('pjrpc/common/generators.py', 'random'),
 ]
 NOTATIONS_SINGLE = ['call', 'dunder-call', 'proxy', 'send', 'notify']
-NOTATIONS_BATCH = ['add', 'chain', 'getitem', 'batch-proxy', 'hand-built', 'hand-built-lenient']
+NOTATIONS_BATCH = ['add', 'chain', 'getitem', 'batch-proxy', 'hand-built', 'hand-built-lenient', 'hand-built-extended']
 FLOORS = {'*': {**{f'notation:{n}:{k}': 20 for n in NOTATIONS_SINGLE + NOTATIONS_BATCH for k in ('sync', 'async')},
+                'error-base:get_error_cls-hook': 300,
                 'all-notification-batch:sync': 5, 'all-notification-batch:async': 5, 'idgen:sequential': 100,
                 'idgen:randint': 50, 'idgen:random': 50, 'idgen:uuid': 10, 'outcome:result': 200, 'outcome:typed-error': 20,
                 'outcome:unregistered-code': 20, 'outcome:server-error': 20, 'strict:off': 50, 'interchange:groups': 50,
@@ -66,6 +67,35 @@ REG = {
 
 class CustomBase(JsonRpcError):
     pass
+
+
+class HookedBase(JsonRpcError):
+    """a client-side base class that overrides the documented `get_error_cls(code, default)` hook (one error hierarchy per
+    service): for the codes it knows, ITS classes are used, whatever else is registered for those codes"""
+
+    @classmethod
+    def get_error_cls(cls, code, default):
+        return HOOKED.get(code) or super().get_error_cls(code, default)
+
+
+class _HookedNoCode(HookedBase):
+    """classes handed out by the hook carry no class-level code: they are not in the global registry"""
+
+
+class HookedTyped(_HookedNoCode):
+    pass
+
+
+class HookedNotFound(_HookedNoCode):
+    pass
+
+
+class HookedUnregistered(_HookedNoCode):
+    pass
+
+
+HOOKED = {world.TYPED_CODE: HookedTyped, -32601: HookedNotFound, 1234: HookedUnregistered}
+BASES = {'default': JsonRpcError, 'custom': CustomBase, 'hooked': HookedBase}
 
 
 # a logical call: [method, 'args'|'kwargs', payload, is_notification]
@@ -99,6 +129,8 @@ def check_exception(exc, want, error_cls):
     if not isinstance(exc, JsonRpcError):
         return f'raised-{type(exc).__name__}-instead-of-protocol-error'
     want_cls = REG.get(code, error_cls)
+    if error_cls is HookedBase and code in HOOKED:
+        want_cls = HOOKED[code]
     if type(exc) is not want_cls:
         return f'wrong-exception-class:{"registered" if code in REG else "unregistered"}-code'
     if exc.code != code:
@@ -167,6 +199,44 @@ def run_batch(client, notation, calls, is_async):
                 pr = getattr(pr, m)(*a, **k)
             return pr.call()
         raise KeyError(notation)
+    if notation == 'hand-built-extended':
+        # one BatchRequest object sent, grown with extend(), and sent again: the second document holds everything
+        def build_reqs():
+            idg = client.id_gen_impl()
+            return [client.request_class(m, (tuple(p) if how == 'args' else dict(p)), id=None if notif else next(idg))
+                    for m, how, p, notif in calls]
+
+        def after_first():
+            client.wire.clear()
+            getattr(client, '_vmon_reset', lambda: None)()
+
+        if is_async:
+            async def asend():
+                reqs = build_reqs()
+                req = client.batch_request_class(*reqs[:1])
+                try:
+                    await client.batch.send(req)
+                except Exception:
+                    pass
+                after_first()
+                req.extend(reqs[1:])
+                return await client.batch.send(req)
+            st, v = clientside.outcome_of(asend, True)
+        else:
+            def ssend():
+                reqs = build_reqs()
+                req = client.batch_request_class(*reqs[:1])
+                try:
+                    client.batch.send(req)
+                except Exception:
+                    pass
+                after_first()
+                req.extend(reqs[1:])
+                return client.batch.send(req)
+            st, v = clientside.outcome_of(ssend, False)
+        if st == 'exc' or v is None:
+            return st, v
+        return clientside.outcome_of(lambda: v.result, False)
     if notation in ('hand-built', 'hand-built-lenient'):
         def send():
             b = client.batch
@@ -235,13 +305,16 @@ def strip_ids(doc):
 
 def run_program(ctx, calls, notations, client_async, disp_async, idgen, strict, base):
     w = serverside.get_world(disp_async, None)
-    error_cls = CustomBase if base == 'custom' else JsonRpcError
+    error_cls = BASES.get(base, JsonRpcError)
     ck = 'async' if client_async else 'sync'
+    if base == 'hooked':
+        ctx.hit('error-base:get_error_cls-hook')
     observations = {}
     expectations = [expected_of(c) for c in calls]
     want_exec = serverside.normalise_calls([e for _, ex in expectations for e in ex])
     for notation in notations:
         client = make_client(client_async, w, idgen, strict, error_cls)
+        client._vmon_reset = w.log.clear
         w.log.clear()
         cs = [list(c) + [False] if len(c) == 3 else list(c) for c in calls]
         if notation in NOTATIONS_SINGLE:
@@ -351,7 +424,7 @@ def gen(ctx):
         ca, da = cfgs[k % 4]
         idgen = ('sequential', 'randint', 'random', 'sequential', 'uuid', 'sequential', 'random')[k % 7]
         strict = (k % 5) != 0
-        base = 'custom' if k % 3 == 0 else 'default'
+        base = ('custom', 'default', 'hooked', 'default', 'default', 'hooked')[k % 6]
         return dict(client_async=ca, disp_async=da, idgen=idgen, strict=strict, base=base)
 
     # single-call notations over the whole pool
@@ -366,9 +439,9 @@ def gen(ctx):
         src = positional_ok if positional_only else pool
         calls = [list(rng.choice(src)) + [False] for _ in range(n)]
         if positional_only:
-            notations = ['add', 'chain', 'getitem', 'batch-proxy', 'hand-built', 'hand-built-lenient']
+            notations = ['add', 'chain', 'getitem', 'batch-proxy', 'hand-built', 'hand-built-lenient', 'hand-built-extended']
         else:
-            notations = ['add', 'chain', 'batch-proxy', 'hand-built', 'hand-built-lenient']
+            notations = ['add', 'chain', 'batch-proxy', 'hand-built', 'hand-built-lenient', 'hand-built-extended']
         if rng.random() < 0.45:
             for c in calls:
                 c[3] = rng.random() < 0.5
